@@ -354,6 +354,33 @@ class STensor:
             return STensor((1,), lambda i: self._elem(), self.kind)
         raise OutOfReach("flatten of n-d tensor")
 
+    def ravel(self):
+        return self.flatten()
+
+    def squeeze(self, axis=None):
+        return squeeze(self, axis)
+
+    def mean(self, axis=None):
+        return mean(self, axis)
+
+    def min(self, axis=None):
+        return np_min(self, axis)
+
+    def max(self, axis=None):
+        return np_max(self, axis)
+
+    def any(self, axis=None):
+        return np_any(self, axis)
+
+    def all(self, axis=None):
+        return np_all(self, axis)
+
+    def __getattr__(self, name):
+        # only reached for names this model does not provide
+        if name.startswith("_") or name in ("elem_kind", "nonneg", "in_range_of", "name", "orig_n", "maxis", "mask_fn", "count"):
+            raise AttributeError(name)
+        raise OutOfReach("ndarray.%s is not modelled by the facade" % name)
+
     def tolist(self):
         n = self.rshape
         if not all(isinstance(d, int) for d in n):
@@ -2252,11 +2279,144 @@ def apply_along_axis(func1d, axis, arr, *args, **kwargs):
 # the namespace bound to `np` in loaded modules
 
 
+def multiply(a, b):
+    return elementwise2("*", a, b)
+
+
+def add(a, b):
+    return elementwise2("+", a, b)
+
+
+def subtract(a, b):
+    return elementwise2("-", a, b)
+
+
+def true_divide(a, b):
+    return elementwise2("/", a, b)
+
+
+def negative(a):
+    return elementwise2("-", 0, a)
+
+
+def reciprocal(a):
+    return elementwise2("/", 1.0, a)
+
+
+def square(a):
+    return elementwise2("*", a, a)
+
+
+def _maxmin2(a, b, want_max):
+    def f(x, y):
+        x, y = to_f(x), to_f(y)
+        ge = r_cmp(">=", x.v, y.v) if want_max else r_cmp("<=", x.v, y.v)
+        return SFloat(b_or(x.u, y.u), r_ite(ge, x.v, y.v))  # NaN-propagating, like numpy
+
+    return elementwise(f, a, b, kind="f")
+
+
+def maximum(a, b):
+    return _maxmin2(a, b, True)
+
+
+def minimum(a, b):
+    return _maxmin2(a, b, False)
+
+
+def isfinite(a):
+    """NaN and +-Inf are one 'undefined' flag in this model (A-REAL): finite == defined"""
+    return logical_not(isnan(a))
+
+
+def zeros_like(a, dtype=None):
+    t = _as_tensor_or_scalar(a)
+    if t is None:
+        return 0.0
+    return full(t.rshape, 0.0 if (dtype in (None, float) and t.kind == "f") or dtype is float else 0)
+
+
+def ones_like(a, dtype=None):
+    t = _as_tensor_or_scalar(a)
+    if t is None:
+        return 1.0
+    return full(t.rshape, 1.0 if (dtype in (None, float) and t.kind == "f") or dtype is float else 1)
+
+
+def full_like(a, fill_value, dtype=None):
+    t = _as_tensor_or_scalar(a)
+    if t is None:
+        return fill_value
+    if t.kind == "i" and dtype is None and isinstance(fill_value, float) and fill_value != fill_value:
+        raise ValueError("cannot convert float NaN to integer")
+    return full(t.rshape, fill_value)
+
+
+def empty_like(a, dtype=None):
+    return zeros_like(a, dtype)
+
+
+def expand_dims(a, axis):
+    t = _as_tensor_or_scalar(a)
+    if t is None or not isinstance(axis, int):
+        raise OutOfReach("expand_dims")
+    key = [slice(None)] * t.ndim
+    key.insert(axis if axis >= 0 else t.ndim + 1 + axis, None)
+    return t[tuple(key)]
+
+
+def atleast_1d(a):
+    t = _as_tensor_or_scalar(a)
+    if t is None:
+        return array([a])
+    return t if t.ndim >= 1 else STensor((1,), lambda i: t._elem(), t.kind)
+
+
+def squeeze(a, axis=None):
+    t = _as_tensor_or_scalar(a)
+    if t is None:
+        return a
+    if axis is not None:
+        raise OutOfReach("squeeze with axis")
+    keep = [d for d, n in enumerate(t.rshape) if not (isinstance(n, int) and n == 1)]
+    if any(not isinstance(t.rshape[d], int) for d in range(t.ndim) if d not in keep):
+        raise OutOfReach("squeeze of symbolic unit axis")
+    if len(keep) == t.ndim:
+        return t
+    shape = tuple(t.rshape[d] for d in keep)
+
+    def elem(*idx):
+        full_idx = [0] * t.ndim
+        for d, i in zip(keep, idx):
+            full_idx[d] = i
+        return t._elem(*full_idx)
+
+    return STensor(shape, elem, t.kind)
+
+
+def ravel(a):
+    t = _as_tensor_or_scalar(a)
+    if t is None:
+        return array([a])
+    return t.flatten()
+
+
+class _Facade:
+    """the namespace bound to `np` in the loaded modules: a numpy name this model does not
+    provide is *out of reach* (the function falls back to the bounded tier / is left
+    undecided), never an AttributeError that would look like a defect of the code"""
+
+    def __getattr__(self, name):
+        if name.startswith("__"):
+            raise AttributeError(name)
+        raise OutOfReach("numpy.%s is not modelled by the facade" % name)
+
+
 def facade():
     import types
 
     g = globals()
-    ns = types.SimpleNamespace()
+    ns = _Facade()
     skip = {"math", "Fraction", "z3", "core", "sg", "ctx"}
     for k, v in g.items():
         if k.startswith("_") or k in skip:
